@@ -328,6 +328,16 @@ impl Driver {
     pub fn cancel(&mut self, key: ErasedKey) {
         instrument!(compio_log::Level::TRACE, "cancel", ?key);
         trace!("cancel RawOp");
+        // Operations queued in the same submission batch may not be visible to
+        // the cancellation yet (a poll-first receive or accept is only armed
+        // after the batch), and the kernel answers ENOENT for those. Hand
+        // everything queued so far to the kernel before the cancel entry.
+        if !self.inner.submission().is_empty() {
+            match self.submit_auto(Some(Duration::ZERO), false) {
+                Ok(()) => {}
+                Err(e) => trace!("submit before cancel: {e:?}"),
+            }
+        }
         // Go through `push_raw` so that a full submission queue is flushed and
         // the cancellation is retried instead of being silently dropped.
         #[allow(clippy::useless_conversion)]
